@@ -18,6 +18,8 @@ import JsonV.Lemmas.CanonParse
 import JsonV.Lemmas.CanonRound
 import JsonV.Lemmas.CanonLex
 import JsonV.Props.C12
+import JsonV.Props.C10Glue
+import JsonV.Lemmas.CanonIntCodec
 
 namespace JsonV.Props.C13
 open JsonV JsonV.Model.Utf8 JsonV.Model.Compare JsonV.Model.Reorder JsonV.Spec.Utf16Order
@@ -209,6 +211,7 @@ section Canonicalize
 open JsonV.Canon JsonV.Fmt JsonV.Model.Quote JsonV.Spec.StringSpec
 open JsonV.Lemmas.CanonTree JsonV.Lemmas.CanonAtom JsonV.Lemmas.CanonSort JsonV.Lemmas.CanonForm JsonV.Lemmas.CanonParse
 open JsonV.Lemmas.CanonRound JsonV.Lemmas.CanonLex JsonV.Lemmas.CanonNest
+open JsonV.Props.C10Glue JsonV.Lemmas.NumFloat
 
 /-- What a successful call returns: the compact rendering of the canonical tree of a strict input. -/
 theorem canonicalize_eq_some (fp : FloatCodec) (b c : Bytes) :
@@ -290,13 +293,13 @@ theorem canon_numbers_ecma (fp : FloatCodec)
   | tru => simp [canonAtom] at e
   | fls => simp [canonAtom] at e
 
-/-- The law `canon_idem` needs from the float parameter: a canonical number literal is re-spelled as itself
-(ParseFloat ∘ shortest digits round-trips).  A property of strconv, validated by the harness (fixed-point check). -/
-def NumStable (fp : FloatCodec) : Prop := ∀ lit, canonNum fp (canonNum fp lit) = canonNum fp lit
-
-/-- `canon_idem` (tree level): the canonical tree is strict again and is its own canonical tree. -/
-theorem canon_tree_idem (fp : FloatCodec) (hn : NumStable fp) (t : JV) (h : strict t = true) :
+/-- `canon_idem` (tree level): the canonical tree is strict again and is its own canonical tree.  The float
+parameter enters only through C10's `CodecLaws` (well-formed shortest digits; the canonical spelling of a value
+reads back as that value), from which `numStable_of_laws` (slice C10) gives that a canonical number literal is
+re-spelled as itself. -/
+theorem canon_tree_idem (fp : FloatCodec) (hc : CodecLaws fp) (t : JV) (h : strict t = true) :
     strict (canonTree fp t) = true ∧ canonTree fp (canonTree fp t) = canonTree fp t := by
+  have hn := numStable_of_laws fp hc
   have good := good_sortTree _ (namesOK_respell fp t h)
   have perm := toks_canonTree fp t
   have hstr : ∀ r, Tok.str r ∈ (canonTree fp t).toks → strOK r = true := by
@@ -359,20 +362,35 @@ theorem respell_congr_meaning (fp : FloatCodec) (a b m : Bytes) (ha : StringLite
     canonAtom fp (.str a) = canonAtom fp (.str b) := by
   simp only [canonAtom]; rw [canonStr_of_meaning a b m ha hb]
 
-/-- The IEEE-754 fact behind the `n < 16` shortcut, as a law of the float parameter: an integer literal of fewer
-than 16 characters is already the canonical spelling of its value.  Validated by the harness, not proved. -/
-def ShortIntFixed (fp : FloatCodec) : Prop := ∀ lit, shortInt lit = true → fp.append (numValue fp lit) = lit
+/-- The IEEE-754 fact behind the `n < 16` shortcut, as a law of the float parameter: an INTEGER LITERAL
+(`-? (0 | [1-9][0-9]*)`, C10's `isIntLit`) of fewer than 16 characters, other than `-0`, is already the canonical
+spelling of its value.  The guard matters: `shortInt` alone also holds of byte strings that are not numbers.
+Validated by the harness for strconv (not proved); proved for the exact integer codec in `shortInt_exact_codec`. -/
+def ShortIntFixed (fp : FloatCodec) : Prop :=
+  ∀ lit, JsonV.Spec.Ecma.isIntLit lit = true → shortInt lit = true → fp.append (numValue fp lit) = lit
 
-/-- … and number literals with the same float64 value are interchangeable (relative to `ShortIntFixed`). -/
-theorem respell_congr_num (fp : FloatCodec) (hs : ShortIntFixed fp) (a b : Bytes) (h : numValue fp a = numValue fp b) :
+/-- … and number literals (of the JSON grammar: what the tokenizer accepts) with the same float64 value are
+interchangeable (relative to `ShortIntFixed`). -/
+theorem respell_congr_num (fp : FloatCodec) (hs : ShortIntFixed fp) (a b : Bytes)
+    (ha : JsonV.Spec.Grammar.JNumber a) (hb : JsonV.Spec.Grammar.JNumber b) (h : numValue fp a = numValue fp b) :
     canonAtom fp (.num a) = canonAtom fp (.num b) := by
-  have e : ∀ lit, canonNum fp lit = fp.append (numValue fp lit) := by
-    intro lit
+  have e : ∀ lit, JsonV.Spec.Grammar.JNumber lit → canonNum fp lit = fp.append (numValue fp lit) := by
+    intro lit hj
     rw [canonNum_eq]
     by_cases c : shortInt lit = true
-    · rw [if_pos c, hs lit c]
+    · have hi : JsonV.Spec.Ecma.isIntLit lit = true := by
+        apply (JsonV.Lemmas.NumJNumber.intLit_iff_noFrac lit hj).2
+        simp only [shortInt, Bool.and_eq_true, Bool.not_eq_true'] at c
+        exact c.1.2
+      rw [if_pos c, hs lit hi c]
     · rw [if_neg c]
-  simp only [canonAtom]; rw [e a, e b, h]
+  simp only [canonAtom]; rw [e a ha, e b hb, h]
+
+/-- A valid number token is a number of the grammar (C12's `scanNum_iff'`), so the hypothesis above holds of every
+number token of a tokenized text. -/
+theorem jnumber_of_valid (lit : Bytes) (h : (Tok.num lit).valid = true) : JsonV.Spec.Grammar.JNumber lit := by
+  simp only [Tok.valid, beq_iff_eq] at h
+  exact (scanNum_iff' lit).1 h
 
 /-- The hypotheses are satisfiable: `{"b":"A", "a" : 1}` parses to a strict tree whose tokens are those of
 `t`, and `u` = `{"a":1,"b":"A"}` is strict as well. -/
@@ -384,16 +402,13 @@ example :
         0x20, 0x3a, 0x20, 0x31, 0x7d]).map (fun x => (x.toks, strict x)) = some (t.toks, true) ∧ strict u = true := by
   decide +kernel
 
-/-- A law of the float parameter used by `canon_no_ws`: what `AppendFloat` emits is lexically one JSON number
-(C10 proves `float_is_number` for well-formed decompositions against its own recogniser; the bridge to the
-tokenizer's `scanNum` is validated by the harness's token scanner, not proved). -/
-def NumLex (fp : FloatCodec) : Prop := ∀ f, (Tok.num (fp.append f)).valid = true
-
 /-- `canon_no_ws`: the output is the bare concatenation of its tokens and the `,` / `:` the grammar requires, and
 none of these lexemes other than a string literal contains a whitespace byte. -/
-theorem canon_no_ws (fp : FloatCodec) (hl : NumLex fp) (b c : Bytes) (h : canonicalize fp b = some c) :
+theorem canon_no_ws (fp : FloatCodec) (hw : ∀ f, WFD (fp.shortest f).1 (fp.shortest f).2) (b c : Bytes)
+    (h : canonicalize fp b = some c) :
     ∃ ts, c = ((punct [.top0] ts).map Lex.bytes).flatten ∧
       ∀ l ∈ punct [.top0] ts, (∀ raw, l ≠ .tok (.str raw)) → ∀ x ∈ l.bytes, isWs x = false := by
+  have hl := numLex_of_wfd fp hw
   obtain ⟨t, hp, _, rfl⟩ := (canonicalize_eq_some fp b c).mp h
   have hv := (parseText_wellNested b t hp).2.1
   refine ⟨(canonTree fp t).toks, flatWs_compact _ _, ?_⟩
@@ -423,9 +438,11 @@ theorem canon_no_ws (fp : FloatCodec) (hl : NumLex fp) (b c : Bytes) (h : canoni
 /-- `canon_roundtrip`: the output text tokenizes (C12's tokenizer) to exactly the tokens of the canonical tree and
 parses back to that tree — so every statement above about the tokens of `canonTree fp t` is a statement about
 the tokens of the returned bytes. -/
-theorem canon_roundtrip (fp : FloatCodec) (hl : NumLex fp) (b c : Bytes) (h : canonicalize fp b = some c) :
+theorem canon_roundtrip (fp : FloatCodec) (hw : ∀ f, WFD (fp.shortest f).1 (fp.shortest f).2) (b c : Bytes)
+    (h : canonicalize fp b = some c) :
     ∃ t, parseText b = some t ∧ strict t = true ∧ c = renderCompact (canonTree fp t).toks ∧
       tokenize c = some (canonTree fp t).toks ∧ parseText c = some (canonTree fp t) := by
+  have hl := numLex_of_wfd fp hw
   obtain ⟨t, hp, hs, rfl⟩ := (canonicalize_eq_some fp b c).mp h
   refine ⟨t, hp, hs, rfl, ?_⟩
   have hw := (parseText_wellNested b t hp)
@@ -462,33 +479,35 @@ theorem canon_roundtrip (fp : FloatCodec) (hl : NumLex fp) (b c : Bytes) (h : ca
   exact parse_toks_self _ hatoms
 
 /-- `canon_idem`: canonicalizing the output again succeeds and returns the same bytes. -/
-theorem canon_idem (fp : FloatCodec) (hn : NumStable fp) (hl : NumLex fp) (b c : Bytes)
+theorem canon_idem (fp : FloatCodec) (hl : CodecLaws fp) (b c : Bytes)
     (h : canonicalize fp b = some c) : canonicalize fp c = some c := by
-  obtain ⟨t, _, hs, hc, _, hp⟩ := canon_roundtrip fp hl b c h
-  obtain ⟨hs', hid⟩ := canon_tree_idem fp hn t hs
+  obtain ⟨t, _, hs, hc, _, hp⟩ := canon_roundtrip fp hl.wfd b c h
+  obtain ⟨hs', hid⟩ := canon_tree_idem fp hl t hs
   unfold canonicalize
   rw [hp]
   simp only [hs', if_true, hid, hc]
 
-/-- The laws named as hypotheses above are jointly satisfiable (here by the degenerate codec that reads every
-literal as 0; for strconv itself they are validated by the harness): so none of the theorems is vacuous. -/
+/-- The laws named as hypotheses above are satisfiable: trivially by the degenerate codec that reads every
+literal as 0 (C10Glue's example), and — the integer fragment, PROVED rather than assumed — by the exact integer
+codec of `shortInt_exact_codec` below. -/
+example : CodecLaws ⟨fun _ => ⟨false, false, 0, 0⟩, fun _ => ([], 0)⟩ :=
+  ⟨fun _ => (show WFD [] 0 from ⟨by simp, by simp, fun _ => rfl, by omega, by omega⟩), fun _ => rfl⟩
+
+/-- `shortInt_exact_codec`: for the exact integer codec (`Lemmas/CanonIntCodec.lean`: an integer literal of at most
+16 digits reads as that integer, an integer is written as its decimal digits — strconv's behaviour on the integers
+below 2^53) every law the theorems above assume of the float parameter is PROVED, not assumed: well-formed
+shortest digits, the re-read law (`CodecLaws`), and the `n < 16` shortcut (`ShortIntFixed`).  So `canon_no_ws`,
+`canon_roundtrip`, `canon_idem`, `canon_numbers_ecma` and `respell_congr_num` hold unconditionally for every text
+whose numbers are such integers. -/
+theorem shortInt_exact_codec :
+    CodecLaws JsonV.Lemmas.CanonIntCodec.intCodec ∧ ShortIntFixed JsonV.Lemmas.CanonIntCodec.intCodec :=
+  ⟨JsonV.Lemmas.CanonIntCodec.intCodec_laws, JsonV.Lemmas.CanonIntCodec.intCodec_shortInt⟩
+
+/-- the codec is not degenerate: `-9007199254740991` and `120` read as themselves and are written back unchanged -/
 example :
-    let fp : FloatCodec := ⟨fun _ => ⟨false, false, 0, 0⟩, fun _ => ([], 0)⟩
-    NumLex fp ∧ (∀ f, JsonV.Lemmas.NumFloat.WFD (fp.shortest f).1 (fp.shortest f).2) ∧ NumStable fp := by
-  refine ⟨?_, ?_, ?_⟩
-  · intro f
-    show (Tok.num (JsonV.Model.Number.appendFloat f.neg [] 0)).valid = true
-    cases f.neg <;> decide
-  · intro f
-    show JsonV.Lemmas.NumFloat.WFD [] 0
-    exact ⟨by simp, by simp, fun _ => rfl, by omega, by omega⟩
-  · intro lit
-    have e : ∀ l, canonNum ⟨fun _ => ⟨false, false, 0, 0⟩, fun _ => ([], 0)⟩ l = if shortInt l then l else [48] := by
-      intro l; rw [canonNum_eq]; rfl
-    rw [e lit]
-    split
-    · next h => rw [e lit, if_pos h]
-    · exact e [48]
+    (numValue JsonV.Lemmas.CanonIntCodec.intCodec [45, 57, 48, 48, 55, 49, 57, 57, 50, 53, 52, 55, 52, 48, 57, 57, 49]).mant
+      = 9007199254740991 ∧
+    JsonV.Spec.Ecma.isIntLit [49, 50, 48] = true ∧ shortInt [49, 50, 48] = true := by decide
 
 /-- and the model accepts and canonicalizes a concrete text: `{ "a":"A", "b" : [ true ] }` ↦ `{"a":"A","b":[true]}`
 (an input whose members are out of order goes through `List.mergeSort`, which `decide` cannot unfold; the
